@@ -401,6 +401,7 @@ def do_replay(pid, prop, path, ctx):
         st = next(s for s in prop["stages"] if s["name"] == r["stage"])
         st = dict(st)
         st.setdefault("family", prop["family"])
+        st.setdefault("specdir", prop.get("specdir", st["family"]))
         args = [a for a in r["record_cmd"][2:]]
         # strip -seed/-shard/-of from the stored command; re-record only the failing history
         clean, skip = [], 0
@@ -456,6 +457,7 @@ def main(argv):
                     continue
                 st = dict(st)
                 st.setdefault("family", prop["family"])
+                st.setdefault("specdir", prop.get("specdir", st["family"]))
                 STAGE_KINDS[st["kind"]](ctx, st)
         ctx.trusted |= set(prop.get("trusted", []))
         known = load_known(pid)
